@@ -33,14 +33,26 @@ def run(tier, seed):
     kinds = ["ES256-P256", "RS256", "PS256", "EdDSA"] if quick else list(authsim.KINDS)
     # (credential kind, how the RP stores the key, flags byte): the stored-key encoding and the other flag bits must not matter
     configs = [(k, "cose", 0x05) for k in kinds] + [("ES256-P256", "raw-uncompressed-point", 0x01), ("ES256-P256", "raw-uncompressed-point", 0x05), ("ES256-P256", "cose", 0x01)]
+    # other encodings of the stored key: IF the implementation accepts an assertion under one of them at all, every bit must still count
+    configs += [("ES256-P256", "spki-der", 0x05), ("RS256", "spki-der", 0x05), ("EdDSA", "spki-der", 0x05), ("ES256-P256", "spki-pem", 0x05), ("ES256-P256", "compressed-point", 0x05)]
     for kind0, stored_form, fl in configs:
         kind = kind0 if stored_form == "cose" and fl == 0x05 else f"{kind0}/{stored_form}/flags={fl:#04x}"
         s = authcat.Scn(kind0)
         s.flags = fl
         pol, a = s.build()
-        if stored_form != "cose":
+        if stored_form == "raw-uncompressed-point":
             n = a.cred.pk.public_numbers()
             pol = impl.AuthPolicy(pol.challenge, pol.rp_id, pol.origin, b"\x04" + n.x.to_bytes(32, "big") + n.y.to_bytes(32, "big"), pol.count, pol.require_uv)
+        elif stored_form != "cose":
+            from cryptography.hazmat.primitives import serialization as ser
+            enc = {"spki-der": lambda k: k.public_bytes(ser.Encoding.DER, ser.PublicFormat.SubjectPublicKeyInfo), "spki-pem": lambda k: k.public_bytes(ser.Encoding.PEM, ser.PublicFormat.SubjectPublicKeyInfo),
+                   "compressed-point": lambda k: k.public_bytes(ser.Encoding.X962, ser.PublicFormat.CompressedPoint)}[stored_form](a.cred.pk)
+            pol = impl.AuthPolicy(pol.challenge, pol.rp_id, pol.origin, enc, pol.count, pol.require_uv)
+            probe = impl.verify_auth(pol, a.as_record())
+            chk.evals += 1
+            chk.count(f"stored-key-form {stored_form}: " + ("accepted" if probe.startswith("OK") else "refused"))
+            if not probe.startswith("OK"):
+                continue            # this encoding is not a supported stored-key form: nothing to sweep
         il, _ = A.run_case(pol, a, "record", "accept", f"auth-baseline/{kind}")
         for part in ("ad", "cdj", "sig"):
             orig = getattr(a, part)
@@ -154,6 +166,7 @@ def run(tier, seed):
                 B.run_case(regrun.policy_of(pd), reg, "dict", "reject", f"binding-value/{nm}/{fmt}/{kind}", scn=s)
     chk.exhaustive = True
     A.close(); B.close()
+    fw.env_invariance(chk, "auth")          # the same seeded cases under -O / -OO, warnings-as-errors, other TZ / locale, a private CA bundle
     return fw.finish(chk, ob, br, TRUSTED,
                      ["for android-safetynet the flipped objects are the JWS signing input (header.payload text) and the DECODED signature bytes; the base64url text of the signature part is "
                       "decoded leniently by design (unused trailing bits), which is outside the signed material",
